@@ -9,6 +9,7 @@ import SkopsModel.Lemmas.IoAudit
 import SkopsModel.Generated.Specs
 import SkopsModel.Generated.Skeletons
 import SkopsModel.Fs.Canon
+import SkopsModel.Fs.Fault
 /-!
 Line-protocol driver: one JSON object per input line, one JSON object per output line.
 This file is glue (JSON decoding/encoding only); every decision is taken by the model functions.
@@ -509,8 +510,12 @@ def fsRun (j : Json) : Json :=
     { dirs := (jArr j "dirs").map fun d => (asList d).map asStr,
       files := (jArr j "files").map fun e => ((asList (jIdx e 0)).map asStr, decBytes (jIdx e 1)) }
   let prog := jStr j "prog"
+  -- "fault": n — the file operation number n of the run fails with an I/O error instead of taking place
+  let fault : Option Nat := (j.getObjValAs? Nat "fault").toOption
   let r : World × Sig :=
-    if prog = "update" then run Skops.Generated.updateMain Skops.Generated.updateInner cfg fs
+    if prog = "update" ∧ fault.isSome then (runF Skops.Generated.updateMain Skops.Generated.updateInner cfg fs fault).1
+    else if prog = "convert" ∧ fault.isSome then (runF Skops.Generated.convertMain Skops.Generated.convertInner cfg fs fault).1
+    else if prog = "update" then run Skops.Generated.updateMain Skops.Generated.updateInner cfg fs
     else if prog = "update-old" then run [] updateProgOld cfg fs
     else if prog = "convert" then run Skops.Generated.convertMain Skops.Generated.convertInner cfg fs
     else if prog = "dump" then execL cfg Skops.Generated.dumpBody { fs := fs, output := cfg.output }
